@@ -112,6 +112,8 @@ def build_module(shape_label, P, conc_label, second_shape=None):
     base = T('ns::Base', t=[T(P)])
     # two instantiations: the second must not inherit anything from the first
     second = T('ns::Second') if conc_label != 'ns' else T('double')
+    if conc_label == 'ns2':
+        second = T('m9::X')      # same unqualified name as n1::n2::X, another namespace
     mod = [D.ns('gt', [D.cls('Foo', members, tpl=[D.tparam(P, [conc, second])], v=1, b=base)])]
     if not this_shape:
         Sp = S
